@@ -886,3 +886,6 @@ func genExhaustive(w *bufio.Writer) {
 		}
 	}
 }
+
+// GenWellFormed: a random well-formed selector (used by the end-to-end stream)
+func GenWellFormed(r *rand.Rand, depth int) *Sel { return genSel(r, depth, false, true) }
